@@ -161,7 +161,15 @@ func writeEvidence(g *Gen, path, prop, tier string, seed int, obs, failed, known
 	if b := boundedResults[prop]; b != nil {
 		cov["bounded_stand_ins_not_counted_as_proved"] = b
 	}
-	ev := &Evidence{PropertyID: prop, Tier: tier, Seed: seed, Level: level, Coverage: cov, WallS: round2(wall), Violations: len(failed)}
+	nb := 0
+	if brs, ok := boundedResults[prop].([]map[string]any); ok {
+		for _, br := range brs {
+			if v, _ := br["violations"].(float64); v > 0 {
+				nb++
+			}
+		}
+	}
+	ev := &Evidence{PropertyID: prop, Tier: tier, Seed: seed, Level: level, Coverage: cov, WallS: round2(wall), Violations: len(failed) + nb}
 	ev.Assumptions = append(ev.Assumptions, assumptionsFor(g, prop)...)
 	b, _ := json.MarshalIndent(ev, "", " ")
 	os.MkdirAll(filepath.Dir(path), 0o755)
